@@ -221,13 +221,138 @@ def step (line : String) : String :=
     | none => "bad-op"
   | _ => "bad-op"
 
-partial def loop (h : IO.FS.Stream) (out : IO.FS.Stream) : IO Unit := do
+/-! ### World session (stateful ops) -/
+
+structure DState where
+  db : World.DB := {}
+  tasks : List (String × World.Task) := []
+
+def pad12 (n : Nat) : String :=
+  let d := toString n
+  String.ofList (List.replicate (12 - d.length) '0') ++ d
+
+def sortStrings (xs : List String) : List String :=
+  let ins (x : String) : List String → List String :=
+    fun l => (l.takeWhile (· < x)) ++ x :: (l.dropWhile (· < x))
+  xs.foldl (fun acc x => ins x acc) []
+
+def dbDigest (db : World.DB) : String :=
+  let cs := sortStrings (db.cur.map fun c => s!"{c.src}/{c.ig}/{pad12 c.num}/{c.hash}")
+  let rs := sortStrings (db.rows.map fun r => s!"{r.table}/{r.src}/{r.ig}/{pad12 r.blk}/{r.key}/{r.pay}")
+  "C[" ++ ",".intercalate cs ++ "] R[" ++ ",".intercalate rs ++ "]"
+
+def parseBlk (s : String) : Option World.Blk :=
+  match s.splitOn "/" with
+  | [n, h, p, rows] =>
+    n.toNat?.map fun n =>
+      { num := n, hash := h, parent := (if p == "-" then "" else p),
+        rows := (if rows == "" then [] else (rows.splitOn "+").map fun r =>
+          match r.splitOn "~" with
+          | [k, v] => (k, v)
+          | _ => (r, "")) }
+  | _ => none
+
+def parseScript (l h g : String) : World.Script :=
+  let lat := (splitList l ",").map fun a =>
+    if a == "!" then none else match a.splitOn ":" with
+      | [n, hh] => n.toNat?.map fun n => (n, hh)
+      | _ => none
+  let hs := (splitList h ",").map fun a => if a == "!" then none else some a
+  let gs := (splitList g ";").filterMap fun e =>
+    match e.splitOn "=" with
+    | [key, body] =>
+      match key.splitOn ":" with
+      | [a, b] =>
+        match a.toNat?, b.toNat? with
+        | some a, some b =>
+          if body == "!" then some ((a, b), none)
+          else some ((a, b), some ((splitList body "|").filterMap parseBlk))
+        | _, _ => none
+      | _ => none
+    | _ => none
+  { latest := lat, hash := hs, gets := gs }
+
+def parsePos (s : String) : Option World.Pos :=
+  match s.splitOn "#" with
+  | ["begin1"] => some .begin1
+  | ["commit1"] => some .commit1
+  | ["begin2"] => some .begin2
+  | ["insert"] => some .insert
+  | ["update"] => some .update
+  | ["commit2"] => some .commit2
+  | ["qlatest", k] => k.toNat?.map .qlatest
+  | ["qdeps", k] => k.toNat?.map .qdeps
+  | ["delcur", k] => k.toNat?.map .delcur
+  | ["qprev", k] => k.toNat?.map .qprev
+  | ["delrows", k] => k.toNat?.map .delrows
+  | _ => none
+
+def showOutcome : World.Outcome → String
+  | .ok n => s!"ok {n}"
+  | .done => "done"
+  | .nothingNew => "nothing-new"
+  | .ahead => "ahead"
+  | .reorgLimit => "reorg-limit"
+  | .err => "err"
+  | .panic => "panic"
+
+def stepS (st : DState) (line : String) : DState × String :=
+  match (line.splitOn " ").filter (· ≠ "") with
+  | ["w-init"] => ({}, "ok")
+  | ["w-task", id, src, ig, table, start, stop, batch, conc, deps] =>
+    match start.toNat?, stop.toNat?, batch.toNat?, conc.toNat? with
+    | some a, some b, some c, some d =>
+      let t : World.Task := { src := src, ig := ig, table := table, start := a, stop := b, batch := c, conc := d, deps := splitList deps "," }
+      ({ st with tasks := (id, t) :: st.tasks.filter (·.1 != id) }, "ok")
+    | _, _, _, _ => (st, "bad-op")
+  | ["w-step", id, fault, l, h, g] =>
+    match st.tasks.find? (·.1 == id) with
+    | none => (st, "bad-op")
+    | some (_, t) =>
+      let f := if fault == "-" then none else parsePos fault
+      if fault != "-" && f.isNone then (st, "bad-op")
+      else
+        let r := World.converge t st.db (parseScript l h g) f
+        ({ st with db := r.db }, showOutcome r.outcome ++ (if r.scriptOk then "" else " SCRIPT-MISMATCH") ++ " " ++ dbDigest r.db)
+  | ["w-prune", n] =>
+    match n.toNat? with
+    | some n =>
+      let keep (c : World.Cur) : Bool :=
+        ((st.db.cur.filter fun o => o.src == c.src && o.ig == c.ig && o.num > c.num).length < n)
+      let db := { st.db with cur := st.db.cur.filter keep }
+      ({ st with db := db }, dbDigest db)
+    | none => (st, "bad-op")
+  | ["w-db"] => (st, dbDigest st.db)
+  | ["w-proj", s, n, rows, want] =>
+    -- oracle: the implementation's rows (blk:digest) are the projection of the canonical chain over (s, n]
+    let parse (x : String) : List (Nat × String) := (splitList x ",").filterMap fun e =>
+      match e.splitOn ":" with
+      | [b, d] => b.toNat?.map fun b => (b, d)
+      | _ => none
+    match s.toNat?, n.toNat? with
+    | some s, some n =>
+      (st, if World.tableIsProjection (parse rows) (parse want) s n then "ok"
+           else s!"viol table is not the projection of blocks ({s}, {n}]")
+    | _, _ => (st, "bad-op")
+  | ["w-within", lo, n, stop, rows] =>
+    let parse (x : String) : List (Nat × String) := (splitList x ",").filterMap fun e =>
+      match e.splitOn ":" with
+      | [b, d] => b.toNat?.map fun b => (b, d)
+      | _ => none
+    match lo.toNat?, n.toNat?, stop.toNat? with
+    | some lo, some n, some stop =>
+      (st, if World.rowsWithin (parse rows) lo n stop then "ok" else s!"viol a row lies outside ({lo}, {n}] / stop {stop}")
+    | _, _, _ => (st, "bad-op")
+  | _ => (st, step line)
+
+partial def loop (h : IO.FS.Stream) (out : IO.FS.Stream) (st : DState) : IO Unit := do
   let line ← h.getLine
   if line.isEmpty then return ()
-  out.putStrLn (step line.trimAscii.toString)
-  loop h out
+  let (st', o) := stepS st line.trimAscii.toString
+  out.putStrLn o
+  loop h out st'
 
 def main : IO Unit := do
   let out ← IO.getStdout
-  loop (← IO.getStdin) out
+  loop (← IO.getStdin) out {}
   out.flush
